@@ -1,0 +1,11 @@
+//go:build verif
+
+package h2
+
+// VerifNewProcessorsC11 builds a Processors pair from caller-supplied sinks. The fields of
+// Processors are unexported, so code outside this package (the C11 verification harness) cannot
+// otherwise hand recording sinks to a StreamProcessorFactory such as grpc.AsStreamProcessorFactory.
+// Only compiled with the `verif` build tag; no existing code is changed.
+func VerifNewProcessorsC11(cToS, sToC Processor) *Processors {
+	return &Processors{cToS: cToS, sToC: sToC}
+}
